@@ -258,14 +258,17 @@ TOOLS_SMALL = {"cmd": "tools", "quick": 12, "thorough": 200, "binary": True, "ti
 PROPS["C07"] = {
     "jobs": [iso_job(120, 3000), TOOLS_SMALL],
     "rule": ISO_RULE, "assumptions": ISO_ASSUME,
-    "partial": ["C07_directory_decodes shows a Gallina reader recovering the records of every directory extent and C08_links where every extent is; that "
-                "a parent's record for a sub-directory points at that sub-directory (so that a walk from the root reaches everything) is decided by the "
-                "harness's own ECMA-119/Joliet reader on every generated image, not by a theorem",
+    "partial": ["the pieces of a walk are theorems (C07_directory_decodes: a Gallina reader recovers the records of every extent; C08_links: where every extent "
+                "is; C07_every_directory_reachable: every directory is linked from its parent; C07_file_records / C07_file_bytes: the files); their composition "
+                "into one recursive reader with walk(image t) = t is not formalised - the harness's own ECMA-119/Joliet reader performs that walk on every "
+                "generated image; under identifier collisions between sibling directories the theorem gives reachability, not which of the colliding records "
+                "belongs to which sibling",
                 "the network and make-iso routes are covered by the C20 job (tool output = served view) and the session jobs (served view = library view)"],
     "level_text": "Theorems C07_layout (files tile the file area: the precondition of C09), C07_file_bytes (every file's bytes at the location its "
                   "records give), C07_file_records (both hierarchies: each directory's records are '.', '..', its files verbatim, its sub-directories; "
                   "multi-extent splitting tiles the file exactly), C07_directory_decodes / C07_built_directories_decode (an independent record-by-record "
-                  "reader of the extent bytes returns exactly those records), C07_served_bytes, C07_names over the byte-exact model of buildFS; the model's metadata "
+                  "reader of the extent bytes returns exactly those records), C07_every_directory_reachable (every directory is linked from its parent's "
+                  "extent with the location and length of its own '.'), C07_served_bytes, C07_names over the byte-exact model of buildFS; the model's metadata "
                   "area is compared with the real one by hash for every generated tree and an independent reader decodes both hierarchies.",
     "technique": "Coq proof over a byte-exact model of the image builder + differential (hash of metadata area, file table) + independent ISO reader",
 }
